@@ -1267,7 +1267,7 @@ def dseq_eval(case):
                 if tuple(s.shape[:-1]) != tuple(shape) + bshape or s.size(-1) == 0:
                     fail(i, op, f"sample shape {tuple(s.shape)}")
                     continue
-                new = [w["out"][2].double() for w in walks[n0:]]
+                new = [w["out"][2].double().clone() for w in walks[n0:]]
                 if (bsz is None and len(new) != 1) or (bsz is not None and len(new) != prod(shape)):
                     fail(i, op, "number of walks behind the sample")
                     continue
@@ -1340,7 +1340,7 @@ def dseq_eval(case):
             raise
         except Exception as e:  # noqa: BLE001
             import traceback
-            if not any("/pydrobert/torch/" in f.filename or "/torch/distributions/" in f.filename for f in traceback.extract_tb(e.__traceback__)):
+            if not any("/pydrobert/torch/" in f.filename for f in traceback.extract_tb(e.__traceback__)):
                 raise
             impl.append(exc_kind(e))
             fail(i, op, f"raised {exc_kind(e)}: {str(e)[:80]}")
@@ -1465,7 +1465,9 @@ def greedy_eval(case):
     return res
 
 
-EVAL = {"slp": slp_eval, "ps": ps_eval, "walk": walk_eval, "dist": dist_eval, "greedy": greedy_eval, "adv": adv_eval}
+EVAL = {"slp": slp_eval, "ps": ps_eval, "walk": walk_eval, "dist": dist_eval, "greedy": greedy_eval, "adv": adv_eval,
+        "dseq": dseq_eval}
+THEOREMS["dseq"] = THEOREMS["dist"]
 
 
 # ----------------------------------------------------------------------------------------
@@ -1706,6 +1708,71 @@ def _g_ps_order(rng):
     return c
 
 
+DSEQ_BETWEEN = ([], [["edit_sup", 0, "add"]], [["edit_sup", 0, "cell"]], [["clear"]], [["sample", [2]], ["lp_sample"]],
+                [["lp_sup"], ["edit_lp"]], [["edit_sup", 0, "fill"], ["clear"]])
+
+
+def gen_dseq_exh(chk):
+    """two enumerate_support calls on one object: every pair of call forms (default / positional / keyword, expand True / False,
+    both orders) x what happens in between (nothing, in-place edit of the first result, clear_cache, a sample scored, the
+    support scored and its log-probs overwritten) x batch_size None/1/2/3; then the support scored and a sample drawn+scored"""
+    thorough = chk.tier == "thorough"
+    cases, k = [], 0
+    forms = list(SUP_FORMS)
+    for bsz in (None, 1, 2, 3):
+        for a in forms:
+            for b in forms:
+                for j, mid in enumerate(DSEQ_BETWEEN):
+                    k += 1
+                    if not thorough and j != 1 and j != k % len(DSEQ_BETWEEN):
+                        continue
+                    V = 2 + k % 2
+                    T = 2 + (k // 2) % 2 if V == 2 or bsz != 3 else 2
+                    ops = [["sup", a]] + [list(o) for o in mid] + [["sup", b], ["lp_sup"], ["sample", [2]], ["lp_sample"], ["has"]]
+                    cases.append(dict(api="dseq", V=V, eos=(None, 0, V - 1, -1)[k % 4], batch_size=bsz, max_iters=T, ops=ops,
+                                      cache=bool(k % 3 == 0), validate=bool(k % 2), lmseed=500 + k, by_n=bsz is not None,
+                                      tseed=k, stream="exh-dseq"))
+    return cases
+
+
+def _g_dseq(rng):
+    """a random call sequence over all methods of one distribution object, with in-place edits of the returned tensors"""
+    V = rng.choice([2, 2, 3, 3, 4])
+    eos = rng.choice([None, rng.randrange(-V, V), rng.randrange(-V, V)])
+    bsz = rng.choice([None, 1, 2, 2, 3, 3])
+    T = rng.choice([t for t in (1, 2, 3, 4) if V ** t <= 81] + ([None] if eos is not None else []))
+    shapes = [[1], [2], [3], [2, 1]] + ([[2, 2]] if bsz is not None else [])
+    ops = []
+    for _ in range(rng.randint(3, 9)):
+        kind = rng.choice(["sup"] * 4 + ["edit_sup"] * 3 + ["sample"] * 2 + ["lp_sample"] * 2 + ["lp_sup"] * 2 +
+                          ["edit_sample", "edit_lp", "clear", "has"])
+        if kind == "sup":
+            ops.append(["sup", rng.choice(list(SUP_FORMS))])
+        elif kind == "edit_sup":
+            ops.append(["edit_sup", rng.randrange(3), rng.choice(["add", "fill", "cell"])])
+        elif kind == "sample":
+            ops.append(["sample", rng.choice(shapes)])
+        else:
+            ops.append([kind])
+    ops += [["sup", rng.choice(list(SUP_FORMS))], ["lp_sup"]]
+    c = dict(api="dseq", V=V, eos=eos, batch_size=bsz, max_iters=T, ops=ops, cache=rng.random() < 0.5, validate=rng.random() < 0.5,
+             lmseed=rng.randrange(10 ** 6), by_n=bsz is not None, tseed=rng.randrange(2 ** 31), stream="rb-dseq")
+    if rng.random() < 0.4:
+        c["bias"] = [rng.randint(-10, 10) for _ in range(V)]
+    return c
+
+
+def gen_round4(chk):
+    """drawn after every older stream (those stay per seed what they were): legal PackedSequence layouts, call sequences on one
+    distribution object"""
+    rng = chk.rng
+    n = dict(ps=900, dseq=1500) if chk.tier == "thorough" else dict(ps=110, dseq=150)
+    cases = gen_ps_orders(chk) + gen_dseq_exh(chk)
+    cases += [_g_ps_order(rng) for _ in range(n["ps"])]
+    cases += [_g_dseq(rng) for _ in range(n["dseq"])]
+    return cases
+
+
 def _robust(rng, api):
     """a case of the plain generator run through another entry point / call form / layout / history (same model term)"""
     c = GEN[api](rng)
@@ -1896,6 +1963,19 @@ def _cands(case):
             yield mod(cache=False)
         if case["validate"]:
             yield mod(validate=False)
+    elif api == "dseq":
+        for i in range(len(case["ops"])):
+            yield mod(ops=case["ops"][:i] + case["ops"][i + 1:])
+        if case["batch_size"] not in (None, 1):
+            yield mod(batch_size=case["batch_size"] - 1)
+        if case["max_iters"] and case["max_iters"] > 1:
+            yield mod(max_iters=case["max_iters"] - 1)
+        if case["cache"]:
+            yield mod(cache=False)
+        if case["validate"]:
+            yield mod(validate=False)
+        if case.get("bias") is not None:
+            yield mod(bias=None)
     elif api == "greedy" and "vals" not in case:
         if case["N"] > 1:
             yield mod(N=case["N"] - 1, lens=None if case["lens"] is None else case["lens"][:-1])
@@ -1977,7 +2057,7 @@ def run(chk, cases=None):
     ]
     replaying = cases is not None
     if cases is None:
-        cases = gen_exhaustive(chk) + [dict({k: v for k, v in c.items() if k != "note"}, stream="corpus") for c in load_corpus("C07") if "api" in c] + gen_random(chk) + gen_extreme(chk) + gen_robust(chk)
+        cases = gen_exhaustive(chk) + [dict({k: v for k, v in c.items() if k != "note"}, stream="corpus") for c in load_corpus("C07") if "api" in c] + gen_random(chk) + gen_extreme(chk) + gen_robust(chk) + gen_round4(chk)
     results, terms, streams = [], [], []
     for c in cases:
         stream = c.pop("stream", "random")
@@ -2013,6 +2093,15 @@ def run(chk, cases=None):
             chk.count("situation:dist,call_history,cache=%s" % c["cache"])
         if c["api"] == "walk" and c.get("bias") is not None:
             chk.count("walk.initial_state=bias")
+        if c["api"] == "ps" and res.get("order_kind"):
+            chk.count("situation:ps,sorted_indices=" + res["order_kind"] + (",batch-major-hyp" if c["dim"] in (1, -1) else ",time-major-hyp"))
+        if c["api"] == "ps" and c.get("order") is None and len(set(c["lens"])) < len(c["lens"]):
+            chk.count("situation:ps,tied-lengths,sorted_indices=" + ("None(enforce_sorted)" if c["sorted"] else "torch's-own"))
+        if c["api"] == "dseq":
+            for s in sorted(set(res.get("situations", []))):
+                chk.count("situation:" + s + ("" if c["batch_size"] is None else ",batched"))
+            for k in ("batch_size", "max_iters", "cache"):
+                chk.count(f"dseq.{k}={c[k]}")
     ok = coq_eval_bools(chk.workdir, IMPORTS, terms)
     bad = [i for i in range(len(cases)) if results[i]["fail"] or not ok[i]]
     for i in bad:
